@@ -204,6 +204,7 @@ class Fam:
         self.hist: dict[str, int] = {}
         self.n_dialects = 0
         self.future_annotations = False
+        self.allow_container_strategy = True
 
     def h(self, k):
         self.hist[k] = self.hist.get(k, 0) + 1
@@ -295,7 +296,8 @@ class Fam:
             n = r.randrange(2, 4)
             parts = [self.gen_type(depth - 1, avail) for _ in range(n)]
             # a NewType member makes to_dict itself reject the value (C11 territory): not used inside unions
-            parts = [p if p.src != "NTy" else LEAF_BY_SRC["int"] for p in parts]
+            # (same for an Any member: to_dict raises InvalidFieldValue for e.g. Union[date, Any] holding False)
+            parts = [p if p.src not in ("NTy", "Any", "TV") else LEAF_BY_SRC["int"] for p in parts]
             if r.random() < 0.3:
                 parts.insert(r.randrange(0, n + 1), T("None", _choice(["None"])))
             vs = [p for p in parts if p.val]
@@ -518,7 +520,8 @@ class Fam:
             else:
                 body.append(f"    {fname}: {t.src}")
             f = {"name": fname, "type": t, "has_default": has_default, "alias": alias, "init": not init_false,
-                 "explicit_default": bool(default_src and default_src.startswith("default="))}
+                 "explicit_default": bool(default_src and default_src.startswith("default=")),
+                 "default_expr": (default_src or "").split("=", 1)[-1].replace("lambda: ", "")}
             fields.append(f)
             for c in t.classes:
                 info["refs"].add(c)
@@ -539,6 +542,9 @@ class Fam:
         lines = ["@dataclass" + (f"({', '.join(decor)})" if decor else ""),
                  f"class {name}" + (f"({', '.join(head_bases)})" if head_bases else "") + ":"]
         # Config
+        info["field_override"] = any(("serialize=" in ln or "serialization_strategy=" in ln or '"serialize":' in ln) for ln in body) \
+            or bool(parent and self.classes[parent].get("field_override"))
+        self.allow_container_strategy = not info["field_override"]
         cfg = []
         if r.random() < 0.7:
             for opt, p in [("omit_none", 0.3), ("omit_default", 0.3), ("serialize_by_alias", 0.3), ("namedtuple_as_dict", 0.2),
@@ -582,6 +588,7 @@ class Fam:
                     dl.append("    pass")
                 self.lines.extend(dl)
                 cfg.append(f"        dialect = {dn}")
+                info["dialect_omit_default"] = any("omit_default = True" in ln for ln in dl)
             if r.random() < 0.2:
                 js = {}
                 if r.random() < 0.7:
@@ -593,6 +600,7 @@ class Fam:
                 cfg.append("        json_schema = " + repr(js))
             if r.random() < 0.05 and not generic:
                 cfg.append('        discriminator = Discriminator(field="kind", include_subtypes=True)')
+        info["omit_default"] = any("omit_default = True" in ln for ln in cfg) or bool(info.get("dialect_omit_default"))
         if cfg:
             body.append("    class Config(BaseConfig):")
             body.extend(cfg)
@@ -632,10 +640,14 @@ class Fam:
             opts += ['{"serialize": ser_str}', "StratA()", '{"serialize": ser_opt}', '{"serialize": ser_str}']
         if key != "int":
             opts += ['{"serialize": ser_int}']
-        if key not in ("str", "bool"):
-            opts += ['{"serialize": ser_map}']
-        if key != "str":
-            opts += ['{"serialize": ser_lst}']
+        # container-returning strategies (ser_map/ser_lst) are generated only for classes without field-level
+        # overrides: a field-level override is re-applied to the element types of the container (known finding
+        # field-override-container), which then never terminates
+        if self.allow_container_strategy:
+            if key not in ("str", "bool"):
+                opts += ['{"serialize": ser_map}']
+            if key != "str":
+                opts += ['{"serialize": ser_lst}']
         return r.choice(opts)
 
     # ---------------- whole family
@@ -710,6 +722,10 @@ class Fam:
             "cyclic": self.cyclic(t),
             "selftype": any(self.classes[c]["selfref"] for c in reach) or t.selfref,
             "slots_hit": any(self.classes[c].get("slots_hit") for c in reach),
+            # omit_default splices repr(default) into the generated code: a container default is not a literal
+            "omit_default_container": any(self.classes[c].get("omit_default") and any(
+                f.get("default_expr", "").lstrip().startswith(("(", "[", "{", "frozenset(", "set(", "collections.", "NT", "K"))
+                for f in self.classes[c]["all_fields"]) for c in reach),
             "final": any("Final[" in f["type"].src for c in reach for f in self.classes[c]["all_fields"]),
             "nt_mutable": ("NT3" in t.src) or any("NT3" in f["type"].src for c in reach for f in self.classes[c]["all_fields"]),
             "field_strategy_unannotated": self.kf == "field-strategy-unannotated" and bool(reach),
